@@ -512,3 +512,37 @@ def gen_sensors(r, ncases, **kw):
     for _ in range(ncases):
         ops += gen_sensor_case(r, **kw)
     return ops
+
+
+# ---------------------------------------------------------------- wiring (which control algorithm a configuration selects)
+
+def gen_wiring(r, ncases):
+    ops = ["#case wire"]
+    for _ in range(ncases):
+        k = r.below(7)
+        g = lambda: ":".join(fx(r.pick([0.3, 0.02, 0.005, r.range(-300, 300) / 100.0])) for _ in range(3))
+        if k == 0:
+            ca = "none"
+        elif k == 1:
+            ca = "direct"
+        elif k == 2:
+            ca = f"directm:{r.pick([1, 2, 10, 50, 255])}"
+        elif k == 3:
+            ca = "pid:" + g()
+        elif k == 4:
+            ca = "legacy:" + g()
+        elif k == 5:
+            ca = "both:" + g()
+        else:
+            ca = "pid:" + ":".join(fx(v) for v in (0.3, 0.02, 0.005))
+        now = r.range(1, 10**12)
+        cur = r.range(0, 255)
+        seq = []
+        for _ in range(r.range(2, 8)):
+            now += r.pick([50_000_000, 200_000_000, 2_000_000_000])
+            t = r.pick([0, 255, r.range(0, 255)])
+            seq.append(f"{t}:{cur}:{now}")
+            if r.chance(0.5):
+                cur = r.range(0, 255)
+        ops.append(f"wire.loop ca={ca} seq={';'.join(seq)}")
+    return ops
